@@ -2,7 +2,7 @@
    Every theorem is about a run of fdl.build (Build.build_node under Traverse.mrun) on a
    well-formed heap with a valid root.  Proofs: theories/Traverse_proofs.v, Build_proofs.v. *)
 From Fiddle Require Import PyBase PySlice Sig ArgStore PyCall Heap Traverse Build Build_stmt
-  Traverse_proofs Build_proofs Anchors.
+  Traverse_proofs Build_proofs AnchorsBuild.
 
 Local Open Scope nat_scope.
 
